@@ -12,14 +12,19 @@ OpOfSlot(t) == IF t \in NameSlots THEN "AN" ELSE "A"
 
 Differs(r, m) == Ran(r) /\ (r.k # m.k \/ (r.k = "ok" /\ Ids(r) # m.S))
 
+(* without a Role/ResultRole swap the Names and the full associator        *)
+(* operation are the same computation: evaluated once per query            *)
 SrcDrift(s, e) ==
   LET g == s.G
       x == e.x
-      da == {i \in DOMAIN e.aq : \E t \in Slots :
-               Differs(e.aq[i].o[t],
-                       ImplAssocOp(OpOfSlot(t), g, x, s.acs[AqIa(s, i)],
-                                   s.rcs[AqIc(s, i)], s.rls[AqIo(s, i)],
-                                   s.rls[AqIr(s, i)]))}
+      MA(i, op) == ImplAssocOp(op, g, x, s.acs[AqIa(s, i)],
+                               s.rcs[AqIc(s, i)], s.rls[AqIo(s, i)],
+                               s.rls[AqIr(s, i)])
+      da == {i \in DOMAIN e.aq :
+               IF SwapIn = ""
+               THEN LET m == MA(i, "AN") IN
+                    \E t \in Slots : Differs(e.aq[i].o[t], m)
+               ELSE \E t \in Slots : Differs(e.aq[i].o[t], MA(i, OpOfSlot(t)))}
       dr == {i \in DOMAIN e.rq : \E t \in Slots :
                Differs(e.rq[i].o[t],
                        ImplRefOp(OpOfSlot(t), g, x, s.acs[RqIa(s, i)],
